@@ -82,6 +82,13 @@ func (rt *RoundTripper) cacheResponse(req *http.Request, resp *http.Response) {
 		expires = time.Now().Add(rt.DefaultCacheTTL)
 	}
 
+	// a response, which is already expired, is not cached. A non-positive ttl
+	// would furthermore mean "no expiration" for the cache implementations
+	ttl := time.Until(expires)
+	if ttl <= 0 {
+		return
+	}
+
 	respDump, err := httputil.DumpResponse(resp, true)
 	if err != nil {
 		return
@@ -89,7 +96,7 @@ func (rt *RoundTripper) cacheResponse(req *http.Request, resp *http.Response) {
 
 	ctx := req.Context()
 	cch := cache.Ctx(ctx)
-	cch.Set(ctx, cacheKey(req), respDump, time.Until(expires)) //nolint:errcheck
+	cch.Set(ctx, cacheKey(req), respDump, ttl) //nolint:errcheck
 }
 
 func cacheKey(req *http.Request) string {
